@@ -1,6 +1,7 @@
 """C13 - a stored fact is an independent copy of the asserted term."""
 from ..eng import EngineModel
 from .. import rules_state as rs
+from .. import rules_extra as rx
 
 
 def check(repo, rep, tier):
@@ -13,3 +14,4 @@ def check(repo, rep, tier):
     fr = rs.rule_store_snapshot(em, rep, 'C13.S1')
     rs.rule_fresh_per_use(em, rep, 'C13.S2', fr)
     rs.rule_copier_derefs(em, rep, 'C13.S3', fr)
+    rx.rule_facts_immutable(em, rep, 'C13.S4')
